@@ -22,6 +22,10 @@ CONSTANTS
   DevIdleSweep = FALSE
   DevFwdNoEof = FALSE
   SrcKinds = {"direct"}
+  ErrClasses = {"plain"}
+  PollOn = FALSE
+  RetryOn = {}
+  RetryWriteOn = {}
   DevBufio = FALSE
   AttachKinds = {"local"}
   HoldOn = FALSE
